@@ -170,7 +170,7 @@ class Shell:
         e["TSAN_OPTIONS"] = "halt_on_error=0:report_signal_unsafe=0"
         if env:
             e.update(env)
-        self.p = subprocess.Popen([os.path.join(VERIF, "build", variant, prog)], cwd=statedir, env=e,
+        self.p = subprocess.Popen([os.path.join(os.environ.get("VERIF_BUILD", os.path.join(VERIF, "build")), variant, prog)], cwd=statedir, env=e,
                                   stdin=subprocess.PIPE, stdout=subprocess.PIPE, bufsize=0)
         self.ifd = self.p.stdin.fileno()
         self.ofd = self.p.stdout.fileno()
